@@ -33,9 +33,9 @@ ASSUMPTIONS = [
 SHARDS = {"quick": 16, "thorough": 16}
 TIMEOUT = {"quick": 900, "thorough": 7200}
 MIN_CASES = {"quick": 3000, "thorough": 60000}
-REQUIRED_COUNTERS = ["ip_reads_judged", "ip_writes_judged", "notifications_checked", "malformed_entries_skipped", "global_status_applied"]
-BLE_BUILT = False
-COAP_BUILT = False
+REQUIRED_COUNTERS = ["ip_reads_judged", "ip_writes_judged", "notifications_checked", "malformed_entries_skipped", "global_status_applied", "coap_reads_judged", "coap_writes_judged", "ble_writes_judged"]
+BLE_BUILT = True
+COAP_BUILT = True
 
 STATUSES = [0, -70401, -70402, -70403, -70404, -70405, -70406, -70407, -70408, -70409, -70410, -70411, -70412, 70402, -1, 7, 12345]
 # (aid, iid) -> perms in the simulated accessory database (vf.simnet.default_db)
